@@ -35,14 +35,22 @@ f_kwonly = lambda f: ops.uf("co_kwonlyargcount", FN.sort(), I)(f)
 f_flags = lambda f: ops.uf("co_flags", FN.sort(), I)(f)
 f_defaults = lambda f: ops.uf("fn_defaults", FN.sort(), TOpt(VALS).sort())(f)
 f_kwdefaults = lambda f: ops.uf("fn_kwdefaults", FN.sort(), TOpt(KW).sort())(f)
+f_posonly = lambda f: ops.uf("co_posonlyargcount", FN.sort(), I)(f)
 bitand = lambda a, b: ops.uf("int_bitand", I, I, I)(a, b)
 
 REG.stub(("getattr", "Function", "__code__"), lambda run, obj, node: Conc(("obj_kind", "code", obj)))
 REG.stub(("getattr", "Function", "__defaults__"), lambda run, obj, node: Val(TOpt(VALS), f_defaults(obj.t)))
-REG.stub(("getattr", "Function", "__kwdefaults__"), lambda run, obj, node: Val(TOpt(KW), f_kwdefaults(obj.t)))
+def _kwdefaults(run, obj, node):
+    v = Val(TOpt(KW), f_kwdefaults(obj.t))
+    run.wf(v)          # a dict: size >= 0, a member implies size >= 1
+    return v
+
+
+REG.stub(("getattr", "Function", "__kwdefaults__"), _kwdefaults)
 REG.stub(("getattr", "conc:obj_kind:code", "co_varnames"), lambda run, obj, node: Val(NAMES, f_varnames(obj.obj[2].t)))
 REG.stub(("getattr", "conc:obj_kind:code", "co_argcount"), lambda run, obj, node: Val(TInt, f_argcount(obj.obj[2].t)))
 REG.stub(("getattr", "conc:obj_kind:code", "co_kwonlyargcount"), lambda run, obj, node: Val(TInt, f_kwonly(obj.obj[2].t)))
+REG.stub(("getattr", "conc:obj_kind:code", "co_posonlyargcount"), lambda run, obj, node: Val(TInt, f_posonly(obj.obj[2].t)))
 REG.stub(("getattr", "conc:obj_kind:code", "co_flags"), lambda run, obj, node: Val(TInt, f_flags(obj.obj[2].t)))
 
 
@@ -60,9 +68,19 @@ REG.stub(("builtin", "next"), _first_key)
 
 
 # ------------------------------------------------------------------------------------------------ the signature view
+def sig_names(f):
+    """parameter names after (self, context): co_varnames[:argcount+kwonly][2:] (linked to the code's slices once, in _entry)"""
+    return ops.uf("sig_param_names", FN.sort(), NAMES.sort())(f)
+
+
+def _names_def(f):
+    inner = z3.Extract(f_varnames(f), 0, f_argcount(f) + f_kwonly(f))
+    return z3.Extract(inner, 2, z3.Length(inner) - 2)
+
+
 def sig(c_or_f):
     f = c_or_f
-    names = z3.Extract(z3.Extract(f_varnames(f), 0, f_argcount(f) + f_kwonly(f)), 2, z3.Length(z3.Extract(f_varnames(f), 0, f_argcount(f) + f_kwonly(f))) - 2)
+    names = _names_def(f)
     pc = z3.If(f_argcount(f) - 2 >= 0, f_argcount(f) - 2, 0)
     kc = f_kwonly(f)
     va = bitand(f_flags(f), 4) != 0
@@ -95,6 +113,100 @@ def _wf_sig(c):
                   z3.ForAll([a, b], z3.Implies(z3.And(0 <= a, a < b, b < ac + kc), vn[a] != vn[b])))
 
 
+def _M():
+    return z3.Int("c11_leading_positionals")
+
+
+def npo_of(f):
+    """positional-only parameters after (self, context)"""
+    return z3.If(f_posonly(f) - 2 >= 0, f_posonly(f) - 2, 0)
+
+
+def Acc_full(c, old=True):
+    return z3.And(*Acc_conjuncts(c, old))
+
+
+# which conjunct of Acc a given TypeError message claims to violate (a HINT for the prover: obliging the negation of
+# one conjunct is stronger than obliging not-Acc)
+_SITE_HINT = [("positional argument follows keyword", 0), ("takes ", 1), ("got multiple values", (2, 3)), ("got an unexpected keyword", (4, 5)), ("missing a required", (6, 7))]
+
+
+def _not_acc(c):
+    conj = Acc_conjuncts(c)
+    exc = c["raised"].obj
+    msg = exc.args[0].t if exc.args else None
+    if msg is not None:
+        parts = z3.simplify(msg)
+        txt = None
+        if z3.is_string_value(parts):
+            txt = parts.as_string()
+        elif z3.is_app(parts) and parts.decl().kind() == z3.Z3_OP_SEQ_CONCAT and z3.is_string_value(parts.arg(0)):
+            txt = parts.arg(0).as_string()
+        if txt is not None:
+            for prefix, k in _SITE_HINT:
+                if txt.startswith(prefix):
+                    ks = k if isinstance(k, tuple) else (k,)
+                    if prefix.startswith("missing") and "loc_i" in c.fr.vars and "loc_param_name" in c.fr.vars:
+                        # explicit witness j2 = i for the violated conjunct (6: positional parameter, 7: keyword-only parameter)
+                        return _missing_witness(c, c["loc_i"].t, c["loc_param_name"].t)
+                    return z3.Or(*[z3.Not(conj[q]) for q in ks])
+    return z3.Not(z3.And(*conj))
+
+
+def _missing_witness(c, i, s_):
+    f, Pm, ex = c.old("fn").t, c.old("params").t, c.old("extra_kwargs").t
+    names, pc, kc, va, vk = sig(f)
+    npo = npo_of(f)
+    n, M, kpos = z3.Length(Pm), _M(), _kpos()
+    d = f_defaults(f)
+    nd = z3.If(TOpt(VALS).is_none(d), 0, z3.Length(TOpt(VALS).get(d)))
+    kd = f_kwdefaults(f)
+    in_kd = z3.And(z3.Not(TOpt(KW).is_none(kd)), z3.Select(KW.has(TOpt(KW).get(kd)), s_))
+    in_extra = z3.And(z3.Not(TOpt(KW).is_none(ex)), z3.Select(KW.has(TOpt(KW).get(ex)), s_))
+    given = z3.And(M <= kpos(s_), kpos(s_) < n, key_of(Pm, kpos(s_)) == OS.some(s_))
+    w_pos = [0 <= i, i < pc - nd, i >= M, z3.Not(z3.And(i >= npo, given)), z3.Not(z3.And(i >= npo, in_extra)), names[i] == s_]
+    w_kwo = [i < pc + kc, z3.Not(in_kd), z3.Not(given), z3.Not(in_extra), names[i] == s_]
+    # one small goal per conjunct (the path condition decides which case applies)
+    return z3.And(*([z3.Implies(i < pc, w) for w in w_pos] + [z3.Implies(i >= pc, w) for w in w_kwo]))
+
+
+def Acc_conjuncts(c, old=True):
+    """CPython's binding rule in closed form (positional-only parameters included)"""
+    f = (c.old("fn") if old else c["fn"]).t
+    Pm = (c.old("params") if old else c["params"]).t
+    ex = (c.old("extra_kwargs") if old else c["extra_kwargs"]).t
+    names, pc, kc, va, vk = sig(f)
+    npo = npo_of(f)
+    n = z3.Length(Pm)
+    M = _M()
+    kpos = _kpos()
+    j, j2 = z3.Const("bv_j", I), z3.Const("bv_j2", I)
+    filled = z3.If(M < pc, M, pc)
+    d = f_defaults(f)
+    nd = z3.If(TOpt(VALS).is_none(d), 0, z3.Length(TOpt(VALS).get(d)))
+    kd = f_kwdefaults(f)
+    in_kd = lambda s_: z3.And(z3.Not(TOpt(KW).is_none(kd)), z3.Select(KW.has(TOpt(KW).get(kd)), s_))
+    in_extra = lambda s_: z3.And(z3.Not(TOpt(KW).is_none(ex)), z3.Select(KW.has(TOpt(KW).get(ex)), s_))
+    extra_nonempty = z3.And(z3.Not(TOpt(KW).is_none(ex)), KW.size(TOpt(KW).get(ex)) > 0)
+    given_kw = lambda s_: z3.And(M <= kpos(s_), kpos(s_) < n, key_of(Pm, kpos(s_)) == OS.some(s_))
+    return [
+        z3.ForAll([j], z3.Implies(z3.And(M <= j, j < n), z3.Not(is_pos(Pm, j)))),                                  # no positional after a keyword
+        z3.Or(va, M <= pc),
+        # keyword names distinct  <=>  every keyword position is the FIRST occurrence of its key (kpos is definitional)
+        z3.ForAll([j], z3.Implies(z3.And(M <= j, j < n), kpos(OS.get(key_of(Pm, j))) == j)),
+        # a keyword does not name a parameter that is already filled positionally (npos is definitional) - unless that
+        # parameter is positional-only and there is **kwargs
+        z3.ForAll([j], z3.Implies(z3.And(M <= j, j < n, 0 <= _npos()(OS.get(key_of(Pm, j))), _npos()(OS.get(key_of(Pm, j))) < filled,
+                                         names[_npos()(OS.get(key_of(Pm, j)))] == OS.get(key_of(Pm, j))),
+                                  z3.And(_npos()(OS.get(key_of(Pm, j))) < npo, vk))),
+        z3.ForAll([j], z3.Implies(z3.And(M <= j, j < n), z3.Or(vk, z3.And(npo <= _npos()(OS.get(key_of(Pm, j))), _npos()(OS.get(key_of(Pm, j))) < pc + kc,
+                                                                          names[_npos()(OS.get(key_of(Pm, j)))] == OS.get(key_of(Pm, j)))))),
+        z3.Implies(extra_nonempty, vk),
+        z3.ForAll([j2], z3.Implies(z3.And(0 <= j2, j2 < pc), z3.Or(j2 >= pc - nd, j2 < M, z3.And(j2 >= npo, z3.Or(given_kw(names[j2]), in_extra(names[j2])))))),
+        z3.ForAll([j2], z3.Implies(z3.And(pc <= j2, j2 < pc + kc), z3.Or(in_kd(names[j2]), given_kw(names[j2]), in_extra(names[j2])))),
+    ]
+
+
 def _kpos():
     return z3.Function("c11_first_kw_position", S, I)
 
@@ -111,11 +223,18 @@ def _entry(run, fr):
     kpos, npos = _kpos(), _npos()
     j = z3.FreshConst(I, "j")
     kj = OS.get(key_of(Pm, j))
+    M = _M()
     for ax in (
+        # M = number of leading positional arguments (definitional: it exists and is unique)
+        z3.And(0 <= M, M <= z3.Length(Pm), z3.ForAll([j], z3.Implies(z3.And(0 <= j, j < M), is_pos(Pm, j))), z3.Or(M == z3.Length(Pm), z3.Not(is_pos(Pm, M)))),
         z3.ForAll([j], z3.Implies(z3.And(0 <= j, j < z3.Length(Pm), z3.Not(is_pos(Pm, j))),
                                   z3.And(0 <= kpos(kj), kpos(kj) <= j, key_of(Pm, kpos(kj)) == key_of(Pm, j)))),
         # parameter names are distinct (wf_sig), so their position is a function
         z3.ForAll([j], z3.Implies(z3.And(0 <= j, j < z3.Length(names)), npos(names[j]) == j)),
+        # membership in the name list, through the position function
+        z3.ForAll([z3.Const("bv_sx", S)], z3.Contains(names, z3.Unit(z3.Const("bv_sx", S))) ==
+                  z3.And(0 <= npos(z3.Const("bv_sx", S)), npos(z3.Const("bv_sx", S)) < z3.Length(names), names[npos(z3.Const("bv_sx", S))] == z3.Const("bv_sx", S)),
+                  patterns=[npos(z3.Const("bv_sx", S))]),
     ):
         run.pc.append(ax)
 
@@ -134,7 +253,7 @@ def _L1(c):
     return z3.And(
         0 <= npi, npi <= i, c["positional_count"].t == pc, c["param_names"].t == names, c["kwonly_count"].t == kc,
         c["has_var_positional"].t == va, c["has_var_keyword"].t == vk, z3.Length(names) == pc + kc,
-        c["seen_kwargs"].t == (npi < i),
+        c["seen_kwargs"].t == (npi < i), z3.If(npi < i, _M() == npi, _M() >= i),
         # P[0..i) is npi positionals followed by keywords
         z3.ForAll([j], z3.Implies(z3.And(0 <= j, j < i), is_pos(Pm, j) == (j < npi))),
         z3.Or(va, npi <= pc),
@@ -150,7 +269,8 @@ def _L1(c):
         z3.ForAll([s], z3.Implies(z3.Select(KW.has(vkw), s), z3.And(npi <= kpos(s), kpos(s) < i, key_of(Pm, kpos(s)) == OS.some(s)))),
         # each keyword names a parameter that is not already filled, or goes to **kwargs
         z3.ForAll([j], z3.Implies(z3.And(npi <= j, j < i), z3.Or(z3.Contains(names, z3.Unit(OS.get(key_of(Pm, j)))), vk))),
-        z3.ForAll([j, j2], z3.Implies(z3.And(npi <= j, j < i, 0 <= j2, j2 < filled), names[j2] != OS.get(key_of(Pm, j)))),
+        z3.ForAll([j], z3.Implies(z3.And(npi <= j, j < i), z3.Not(z3.And(0 <= npos(OS.get(key_of(Pm, j))), npos(OS.get(key_of(Pm, j))) < filled,
+                                                                          names[npos(OS.get(key_of(Pm, j)))] == OS.get(key_of(Pm, j)))))),
     )
 
 
@@ -163,8 +283,9 @@ def Acc_prefix(c, Pm, n, m):
     return z3.And(
         z3.ForAll([j], z3.Implies(z3.And(0 <= j, j < n), is_pos(Pm, j) == (j < m))),
         z3.Or(va, m <= pc),
-        z3.ForAll([j, j2], z3.Implies(z3.And(m <= j, j < j2, j2 < n), key_of(Pm, j) != key_of(Pm, j2))),
-        z3.ForAll([j, j2], z3.Implies(z3.And(m <= j, j < n, 0 <= j2, j2 < filled), names[j2] != OS.get(key_of(Pm, j)))),
+        z3.ForAll([j], z3.Implies(z3.And(m <= j, j < n), _kpos()(OS.get(key_of(Pm, j))) == j)),
+        z3.ForAll([j], z3.Implies(z3.And(m <= j, j < n), z3.Not(z3.And(0 <= _npos()(OS.get(key_of(Pm, j))), _npos()(OS.get(key_of(Pm, j))) < filled,
+                                                                         names[_npos()(OS.get(key_of(Pm, j)))] == OS.get(key_of(Pm, j)))))),
         z3.ForAll([j], z3.Implies(z3.And(m <= j, j < n), z3.Or(z3.Contains(names, z3.Unit(OS.get(key_of(Pm, j)))), vk))))
 
 
@@ -193,15 +314,19 @@ def _post_accepts(c):
 
 
 REG.contract(
-    f"{MOD}:_validate_params_with_code", prop=P, types={"fn": FN, "params": PARAMS, "extra_kwargs": Opt(KW)}, result=RES, entry=_entry,
+    f"{MOD}:_validate_params_with_code", prop=P, types={"fn": FN, "params": PARAMS, "extra_kwargs": Opt(KW)}, result=RES, entry=_entry, parallel=True,
     locals={"used_param_names": USED, "validated_args": VALS, "validated_kwargs": KW, "kwdefaults": KW, "param_names": NAMES},
     requires=[_wf_sig],
     modifies=[], raises={"TypeError": None},
+    findings={"xpost#TypeError#raised_only_when_the_python_call_would_fail": lambda c: npo_of(c.old("fn").t) > 0,
+              "post#defaults_are_never_passed_for_positional_only_parameters": lambda c: npo_of(c.old("fn").t) > 0},
+    xensures={"TypeError": {"raised_only_when_the_python_call_would_fail": _not_acc}},
     loops={0: Loop(inv=[_L1], variant="len(params) - _i0"),
            1: Loop(inv=[lambda c: _L2(c)], variant="len(_seq1) - _i1")},
     ensures={
         "given_arguments_are_passed_unchanged": _post_args,
         "returns_only_for_well_formed_accepted_prefix": _post_accepts,
+        "defaults_are_never_passed_for_positional_only_parameters": lambda c: _post_defaults_not_posonly(c),
     },
 )
 
@@ -222,8 +347,39 @@ def _L2(c):
         z3.ForAll([j], z3.Implies(z3.And(npi <= j, j < n), z3.Or(
             z3.And(z3.Select(KW.has(vkw), OS.get(key_of(Pm, j))), z3.Select(KW.val(vkw), OS.get(key_of(Pm, j))) == val_of(Pm, j)),
             z3.And(z3.Not(TOpt(KW).is_none(c["extra_kwargs"].t)), z3.Select(KW.has(TOpt(KW).get(c["extra_kwargs"].t)), OS.get(key_of(Pm, j))))))),
-        Acc_prefix(c, Pm, n, npi),
+        Acc_prefix(c, Pm, n, npi), _M() == npi,
+        # what "used" / validated_kwargs mean for the missing-argument checks
+        z3.ForAll([j], z3.Implies(z3.And(0 <= j, j < z3.If(npi < pc, npi, pc)), z3.Select(USED.has(c["used_param_names"].t), names[j]))),
+        z3.ForAll([j], z3.Implies(z3.And(npi <= j, j < n), z3.Select(USED.has(c["used_param_names"].t), OS.get(key_of(Pm, j))))),
+        z3.Implies(z3.Not(TOpt(KW).is_none(c["extra_kwargs"].t)), z3.ForAll([z3.Const("bv_s", S)], z3.Implies(
+            z3.Select(KW.has(TOpt(KW).get(c["extra_kwargs"].t)), z3.Const("bv_s", S)), z3.Select(KW.has(vkw), z3.Const("bv_s", S))))),
+        c["required_positional"].t == pc - z3.If(TOpt(VALS).is_none(f_defaults(c["fn"].t)), 0, z3.Length(TOpt(VALS).get(f_defaults(c["fn"].t)))),
+        _kwargs_origin(c, vkw, c["_i1"].t),
     )
+
+
+def _kwargs_origin(c, vkw, upto):
+    """every entry of the kwargs handed to render() is a given keyword, an extra kwarg, or the default of an omitted
+    parameter among the first `upto` parameters"""
+    f, Pm, ex = c["fn"].t, c["params"].t, c["extra_kwargs"].t
+    names, pc, kc, va, vk = sig(f)
+    s_ = z3.Const("bv_s", S)
+    npos, kpos, M = _npos(), _kpos(), _M()
+    given = z3.And(M <= kpos(s_), kpos(s_) < z3.Length(Pm), key_of(Pm, kpos(s_)) == OS.some(s_))
+    in_extra = z3.And(z3.Not(TOpt(KW).is_none(ex)), z3.Select(KW.has(TOpt(KW).get(ex)), s_))
+    return z3.ForAll([s_], z3.Implies(z3.Select(KW.has(vkw), s_), z3.Or(given, in_extra, z3.And(0 <= npos(s_), npos(s_) < upto, names[npos(s_)] == s_))))
+
+
+def _post_defaults_not_posonly(c):
+    """from the property ('binds the same values to the same parameters, defaults included'): a default that the validator
+    passes explicitly by keyword must belong to a parameter that CAN be passed by keyword"""
+    f, Pm, ex = c["fn"].t, c["params"].t, c["extra_kwargs"].t
+    k = RES.proj(c["result"].t, 1)
+    s_ = z3.Const("bv_s", S)
+    npos, kpos, M = _npos(), _kpos(), _M()
+    given = z3.And(M <= kpos(s_), kpos(s_) < z3.Length(Pm), key_of(Pm, kpos(s_)) == OS.some(s_))
+    in_extra = z3.And(z3.Not(TOpt(KW).is_none(ex)), z3.Select(KW.has(TOpt(KW).get(ex)), s_))
+    return z3.ForAll([s_], z3.Implies(z3.And(z3.Select(KW.has(k), s_), z3.Not(given), z3.Not(in_extra)), npos(s_) >= npo_of(f)))
 
 
 ASSUMES = ["A-PY", "A-INST"]
@@ -232,3 +388,51 @@ NOT_COVERED = [
     "_validate_params_with_signature (fallback path), validate_params' dispatch and NodeMeta.wrapper_render's non-identifier split are not yet under contract; agreement of the two paths is therefore not decided",
     "that Acc equals CPython's acceptance is the definition used here (closed form of the documented binding algorithm), cross-checked by the thorough-tier differential only",
 ]
+
+
+def _tag_call(sig_src, tag_args):
+    """define a node with the given render signature and render `{% probe <tag_args> %}`; returns ('ok', bound) or ('TypeError', msg)"""
+    from django.conf import settings
+    if not settings.configured:
+        from tests.django_test_setup import setup_test_config
+        setup_test_config({"autodiscover": False})
+    from django.template import Context, Library, Template
+    from django_components.node import BaseNode
+    ns = {}
+    exec(f"def render(self, context, {sig_src}):\n    return repr(sorted(locals().items(), key=lambda kv: kv[0])[:-2] if False else {{k: v for k, v in locals().items() if k not in ('self', 'context')}})", ns)
+    lib = Library()
+
+    class Probe(BaseNode):
+        tag = "c11probe"
+        end_tag = None
+        allowed_flags = []
+        render = ns["render"]
+    Probe.register(lib)
+    from django.template import engines
+    eng = engines["django"].engine if "django" in engines else None
+    from django.template.base import Parser
+    try:
+        t = Template("{% load component_tags %}{% c11probe " + tag_args + " %}", engine=None)
+    except Exception:
+        pass
+    import django.template.base as b
+    from django.template import Engine
+    e = Engine.get_default()
+    e.template_libraries = dict(e.template_libraries, c11lib=lib)
+    try:
+        return "ok", e.from_string("{% load c11lib %}{% c11probe " + tag_args + " %}").render(Context({}))
+    except TypeError as ex:
+        return "TypeError", str(ex)
+
+
+def _f11c(w):
+    r = _tag_call("a, /, **kw", "1 a=2")
+    return r[0] == "TypeError"
+
+
+def _f11a(w):
+    r = _tag_call("a=5, /, b=6", "")
+    return r[0] == "TypeError"
+
+
+FINDING_REPLAYS = {"F-C11c": _f11c, "F-C11a": _f11a}
